@@ -2,6 +2,7 @@
 //! against the real key_encrypt / key_decrypt, with the specification's terms as the
 //! independent encryptor for constructions the real one cannot or will not emit.
 use crate::terms::{Env, EvalError, Templates};
+use ct_codecs::Decoder;
 use crate::util::*;
 use kestrel_crypto::decrypt::key_decrypt;
 use kestrel_crypto::encrypt::key_encrypt;
@@ -174,6 +175,12 @@ pub fn run_file(t: &Templates, seed: u64, inp: &str, outp: &str) {
         let v = match jstr(&scn, "op") {
             "hs" => run_hs(t, seed, &scn),
             "pubof" => json!({"pk_hex": hex(&kestrel_crypto::x25519_derive_public(&unhex(jstr(&scn, "sk_hex"))).unwrap())}),
+            "mkkey" => mkkey(t, seed, &scn),
+            "open" => open_file(t, &scn),
+            "open_pass" => open_pass(t, &scn),
+            "unlock" => spec_unlock(t, &scn),
+            "kenc_draws" => kenc_draws(t, seed, &scn),
+            "clear" => clear(t, seed, &scn),
             "golden" => crate::golden::golden(t, &scn),
             "mkgolden" => crate::golden::mkgolden(&scn),
             "hh" => crate::golden::hh(t, seed, &scn),
@@ -183,4 +190,224 @@ pub fn run_file(t: &Templates, seed: u64, inp: &str, outp: &str) {
         writeln!(o, "{}", v).unwrap();
     }
     o.flush().unwrap();
+}
+
+/// Build a keyring entry from the specification's terms (independent of the tree's
+/// keyring code): private key from a label, locked with the given password and salt.
+pub fn mkkey(t: &Templates, seed: u64, scn: &Value) -> Value {
+    let label = jstr(scn, "label");
+    let sk = if let Some(h) = scn.get("sk_hex").and_then(|x| x.as_str()) { unhex(h) } else { priv_of(seed, label).to_vec() };
+    let pk = if let Some(h) = scn.get("pk_hex").and_then(|x| x.as_str()) { unhex(h) } else { kestrel_crypto::x25519_derive_public(&sk).unwrap() };
+    let pw = unhex(jstr_or(scn, "password_hex", ""));
+    let salt = Rng::derive(seed, &format!("salt:{}", label)).bytes32();
+    let locked = t.must("locked_key", &Env::new().b("sk", &sk).b("password", &pw).b("salt", &salt));
+    let enc = t.must("encoded_pub", &Env::new().b("pk", &pk));
+    json!({"label": label, "sk_hex": hex(&sk), "pk_hex": hex(&pk), "pub_enc": String::from_utf8(enc).unwrap(),
+           "locked": String::from_utf8(locked).unwrap()})
+}
+
+/// Recover what an encryption drew from a key-mode file, with the recipient's private key,
+/// by specification-directed opening.
+/// which nonce does each record of `file` (after a header of h bytes) open at, under `key`?
+fn record_nonces(t: &Templates, file: &[u8], h: usize, key: &[u8], prefix: &[u8]) -> (Vec<Value>, usize) {
+    let mut nonces = Vec::new();
+    let mut off = h;
+    let mut idx = 0u64;
+    while off + 32 <= file.len() {
+        let last = u32::from_be_bytes(file[off + 8..off + 12].try_into().unwrap()) as u64;
+        let len = u32::from_be_bytes(file[off + 12..off + 16].try_into().unwrap()) as usize;
+        if off + 32 + len > file.len() {
+            break;
+        }
+        let aad = t.must("chunk_aad", &Env::new().b("prefix", prefix).n("last", last).n("len", len as u64));
+        let mut found: i64 = -1;
+        for c in 0..(idx + 3) {
+            let n = t.must("nonce", &Env::new().n("ctr", c));
+            if kestrel_crypto::chapoly_decrypt_ietf(key, &n, &file[off + 16..off + 32 + len], &aad).is_ok() {
+                found = c as i64;
+                break;
+            }
+        }
+        nonces.push(json!(found));
+        off += 32 + len;
+        idx += 1;
+    }
+    (nonces, file.len() - off)
+}
+
+/// Password-mode file: salt, derived key and the nonce of each record.
+pub fn open_pass(t: &Templates, scn: &Value) -> Value {
+    let file = std::fs::read(jstr(scn, "path")).expect("read file");
+    let pw = unhex(jstr_or(scn, "password_hex", ""));
+    let mut out = json!({"ev":"opened","id":scn.get("id").cloned().unwrap_or(json!("")),"ok":false,"flen":file.len()});
+    if file.len() < 36 {
+        return out;
+    }
+    let env = Env::new().b("password", &pw).b("salt", &file[4..36]);
+    if t.must("pass_header", &env) != file[..36] {
+        return out;
+    }
+    let key = t.must("pass_file_key", &env);
+    let (nonces, residue) = record_nonces(t, &file, 36, &key, &t.must("pass_prefix", &env));
+    out["ok"] = json!(true);
+    out["salt"] = json!(hex(&file[4..36]));
+    out["file_key"] = json!(hex(&key));
+    out["nonces"] = json!(nonces);
+    out["residue"] = json!(residue);
+    out
+}
+
+pub fn open_file(t: &Templates, scn: &Value) -> Value {
+    let file = if let Some(p) = scn.get("path").and_then(|x| x.as_str()) { std::fs::read(p).expect("read file") } else { unhex(jstr(scn, "file_hex")) };
+    let r_priv = unhex(jstr(scn, "r_priv_hex"));
+    let r_pub = kestrel_crypto::x25519_derive_public(&r_priv).unwrap();
+    let mut out = json!({"ev":"opened","id":scn.get("id").cloned().unwrap_or(json!("")),"ok":false,"flen":file.len()});
+    if file.len() < 132 {
+        return out;
+    }
+    if let Some(o) = crate::specread::open_key_header(t, &r_priv, &r_pub, &file[..132]) {
+        let env = Env::new().b("r_priv", &r_priv).b("r_pub", &r_pub).b("e_pub", &file[4..36]).b("enc_s", &file[36..84]).b("enc_p", &file[84..132]).b("s_pub", &o.sender_pub);
+        out["ok"] = json!(true);
+        out["e_pub"] = json!(hex(&file[4..36]));
+        out["sender_pub"] = json!(hex(&o.sender_pub));
+        out["payload"] = json!(hex(&o.payload));
+        out["file_key"] = json!(hex(&o.file_key));
+        out["k1"] = json!(hex(&t.must("rd_k1", &env)));
+        out["k2"] = json!(hex(&t.must("rd_k2", &env)));
+        let (nonces, residue) = record_nonces(t, &file, 132, &o.file_key, &t.must("key_prefix", &Env::new()));
+        out["nonces"] = json!(nonces);
+        out["residue"] = json!(residue);
+    }
+    out
+}
+
+/// Unlock a keyring private-key string as the specification lays it out.
+pub fn spec_unlock(t: &Templates, scn: &Value) -> Value {
+    let locked = jstr(scn, "locked");
+    let pw = unhex(jstr_or(scn, "password_hex", ""));
+    match crate::specread::unlock_by_spec(t, locked, &pw) {
+        Some(sk) => {
+            let blob = ct_codecs::Base64::decode_to_vec(locked, None).unwrap();
+            let pk = kestrel_crypto::x25519_derive_public(&sk).unwrap();
+            let enc = t.must("encoded_pub", &Env::new().b("pk", &pk));
+            json!({"ev":"unlocked","id":scn.get("id").cloned().unwrap_or(json!("")),"ok":true,"sk_hex":hex(&sk),"salt_hex":hex(&blob[4..36]),
+                   "pk_hex":hex(&pk),"pub_enc":String::from_utf8(enc).unwrap()})
+        }
+        None => json!({"ev":"unlocked","id":scn.get("id").cloned().unwrap_or(json!("")),"ok":false}),
+    }
+}
+
+/// Library key_encrypt with the randomness left to the implementation: what did it draw?
+pub fn kenc_draws(t: &Templates, seed: u64, scn: &Value) -> Value {
+    let kseed = ju64_or(scn, "kseed", 1);
+    let k = crate::stream::keyset(seed, kseed, ju64_or(scn, "rseed", 1));
+    let plain = pbytes(ju64_or(scn, "pseed", 1), 0, ju64_or(scn, "plen", 10));
+    let r = catch_unwind(AssertUnwindSafe(|| {
+        let mut out = Vec::new();
+        let sk = PrivateKey::try_from(&k.s_priv[..]).unwrap();
+        let spk = PublicKey::try_from(&k.s_pub[..]).unwrap();
+        let rpk = PublicKey::try_from(&k.r_pub[..]).unwrap();
+        let mut p = &plain[..];
+        key_encrypt(&mut p, &mut out, &sk, &spk, &rpk, None, None, None, AsymFileFormat::V1).map(|_| out)
+    }));
+    match r {
+        Ok(Ok(file)) => {
+            let mut o = open_file(t, &json!({"file_hex": hex(&file), "r_priv_hex": hex(&k.r_priv), "id": scn.get("id").cloned().unwrap_or(json!(""))}));
+            o["sender_ok"] = json!(o.get("sender_pub").and_then(|x| x.as_str()) == Some(&hex(&k.s_pub)));
+            o
+        }
+        _ => json!({"ev":"opened","id":scn.get("id").cloned().unwrap_or(json!("")),"ok":false,"flen":0}),
+    }
+}
+
+/// C08: cleartext of files that differ only in the identities involved, and identity search.
+pub fn clear(t: &Templates, seed: u64, scn: &Value) -> Value {
+    let api = jstr(scn, "api");
+    let plen = ju64_or(scn, "plen", 10);
+    let plain = pbytes(ju64_or(scn, "pseed", 1), 0, plen);
+    let reads: Vec<u64> = jarr(scn, "reads").iter().map(|x| x.as_u64().unwrap()).collect();
+    let h: usize = if api == "key" { 132 } else { 36 };
+    let build = |ident: u64| -> Option<(Vec<u8>, Vec<Vec<u8>>)> {
+        // same ephemeral, payload key / salt, plaintext and read partition; different identities
+        let e_priv = Rng::derive(seed, &format!("clear-e{}", ju64_or(scn, "k", 0))).bytes32();
+        let e_pub = kestrel_crypto::x25519_derive_public(&e_priv).unwrap();
+        let payload = Rng::derive(seed, &format!("clear-p{}", ju64_or(scn, "k", 0))).bytes32();
+        let s_priv = priv_of(seed, &format!("clear-s{}", ident));
+        let r_priv = priv_of(seed, &format!("clear-r{}", ident));
+        let s_pub = kestrel_crypto::x25519_derive_public(&s_priv).unwrap();
+        let r_pub = kestrel_crypto::x25519_derive_public(&r_priv).unwrap();
+        struct Chunked<'a> { d: &'a [u8], reads: Vec<u64>, i: usize }
+        impl<'a> std::io::Read for Chunked<'a> {
+            fn read(&mut self, buf: &mut [u8]) -> std::io::Result<usize> {
+                let want = if self.i < self.reads.len() { self.reads[self.i] as usize } else { buf.len() };
+                self.i += 1;
+                let n = std::cmp::min(std::cmp::min(want, buf.len()), self.d.len());
+                buf[..n].copy_from_slice(&self.d[..n]);
+                self.d = &self.d[n..];
+                Ok(n)
+            }
+        }
+        let mut src = Chunked { d: &plain, reads: reads.clone(), i: 0 };
+        let mut out = Vec::new();
+        let ok = catch_unwind(AssertUnwindSafe(|| {
+            if api == "key" {
+                key_encrypt(&mut src, &mut out, &PrivateKey::try_from(&s_priv[..]).unwrap(), &PublicKey::try_from(&s_pub[..]).unwrap(),
+                            &PublicKey::try_from(&r_pub[..]).unwrap(), Some(&PrivateKey::try_from(&e_priv[..]).unwrap()),
+                            Some(&PublicKey::try_from(&e_pub[..]).unwrap()), Some(&PayloadKey::new(&payload)), AsymFileFormat::V1).is_ok()
+            } else {
+                let pw = format!("password-of-identity-{}", ident);
+                kestrel_crypto::encrypt::pass_encrypt(&mut src, &mut out, pw.as_bytes(), payload, kestrel_crypto::PassFileFormat::V1).is_ok()
+            }
+        }));
+        if !matches!(ok, Ok(true)) {
+            return None;
+        }
+        // identity forms an observer could look for
+        let b64 = |b: &[u8]| -> Vec<u8> { ct_codecs::Base64::encode_to_string(b).unwrap().into_bytes() };
+        use ct_codecs::Encoder;
+        let mut forms = Vec::new();
+        for pk in [&s_pub, &r_pub] {
+            forms.push(pk.clone());
+            forms.push(b64(pk));
+            let enc = t.must("encoded_pub", &Env::new().b("pk", pk));
+            forms.push(enc.clone());
+            forms.push(ct_codecs::Base64::decode_to_vec(std::str::from_utf8(&enc).unwrap(), None).unwrap());
+            forms.push(crate::util::hex(pk).into_bytes());
+        }
+        Some((out, forms))
+    };
+    let contains = |hay: &[u8], needle: &[u8]| -> bool { !needle.is_empty() && hay.windows(needle.len()).any(|w| w == needle) };
+    let a = build(1);
+    let b = build(2);
+    let mut ev = json!({"ev":"clear","id":scn.get("id").cloned().unwrap_or(json!("")),"api":api,"plen":plen,"H":h,"ok":false});
+    if let (Some((fa, forms_a)), Some((fb, forms_b))) = (a, b) {
+        // record layout (positions of cleartext fields) is read from file A's length fields
+        let mut nrec = 0u64;
+        let mut off = h;
+        let mut clear_pos: Vec<(usize, usize)> = vec![(0, 4), (4, 36)];
+        let mut framing_ok = true;
+        while off < fa.len() {
+            if off + 32 > fa.len() {
+                framing_ok = false;
+                break;
+            }
+            let len = u32::from_be_bytes(fa[off + 12..off + 16].try_into().unwrap()) as usize;
+            clear_pos.push((off, off + 16));
+            off += 32 + len;
+            nrec += 1;
+        }
+        framing_ok = framing_ok && off == fa.len();
+        let same_len = fa.len() == fb.len();
+        let clear_equal = same_len && clear_pos.iter().all(|(x, y)| *y <= fa.len() && fa[*x..*y] == fb[*x..*y]);
+        let found = forms_a.iter().any(|f| contains(&fa, f)) || forms_b.iter().any(|f| contains(&fb, f))
+            || forms_a.iter().any(|f| contains(&fb, f)) || forms_b.iter().any(|f| contains(&fa, f));
+        ev["ok"] = json!(true);
+        ev["flen"] = json!(fa.len());
+        ev["flen_b"] = json!(fb.len());
+        ev["nrec"] = json!(nrec);
+        ev["framing_ok"] = json!(framing_ok);
+        ev["clear_equal"] = json!(clear_equal);
+        ev["identity_found"] = json!(found);
+    }
+    ev
 }
